@@ -334,7 +334,14 @@ func runHevc(c *runner.Ctx) {
 	var hashParts [][]byte
 	for i := 0; i < nSPS; i++ {
 		s := h265.GenSPS(r, spsIDs[i], h265.SPSOpt{NoAspectIdc0: !r.Chance(1, 6), NoBigLatency: !r.Chance(1, 6), FewRPS: r.Chance(2, 3)})
+		if s.ExtensionPresent && r.Chance(1, 2) {
+			// a long sps_extension_data_flag run with whole bytes at aligned positions (emulation prevention inside the more_rbsp_data loop)
+			s.DrawLongExtensionData(r)
+		}
 		cd := s.Encode(1)
+		if s.ExtensionPresent && s.Extension4bits != 0 {
+			seenExtData(c, "hevc.sps.extension_data", cd.NAL, s.ExtensionDataStartBit(), len(s.ExtensionData))
+		}
 		spsRecs = append(spsRecs, s)
 		spsCoded = append(spsCoded, cd)
 		hashParts = append(hashParts, cd.NAL)
@@ -372,7 +379,13 @@ func runHevc(c *runner.Ctx) {
 		}
 		used[id] = true
 		p := h265.GenPPS(r, id, spsRecs[si], h265.PPSOpt{})
+		if p.ExtensionPresent && r.Chance(1, 2) {
+			p.DrawLongExtensionData(r)
+		}
 		cd := p.Encode(1)
+		if p.ExtensionPresent && p.Extension4bits != 0 {
+			seenExtData(c, "hevc.pps.extension_data", cd.NAL, p.ExtensionDataStartBit(), len(p.ExtensionData))
+		}
 		ppsRecs = append(ppsRecs, p)
 		ppsCoded = append(ppsCoded, cd)
 		hashParts = append(hashParts, cd.NAL)
